@@ -26,6 +26,7 @@ def macro_world(paths):
         enums = read_enums(os.path.join(repo, 'microscpi-macros', 'src'))
         enums.setdefault('Entry', ['Occupied', 'Vacant'])      # std::collections::hash_map::Entry
         ex = Engine(enums)
+        ex.std_world = True
         fns, allocs = mir.read_mir(paths['mir_macros'], 'macros')
         ex.load(fns, allocs, 'macros')
         natives.install(ex)
